@@ -16,6 +16,9 @@ CfgE == [c \in {"u", "v"} |-> IF c = "u" THEN C("r", {In("K1", NoId, "weak"), In
 AltE == [c \in {"u", "v"} |-> IF c = "u" THEN {In("K1", NoId, "weak")} ELSE {}]
 CfgF == [c \in {"u", "q"} |-> IF c = "u" THEN C("r", {In("K1", 1, "weak")}, FALSE) ELSE C("q", {In("K2", NoId, "qPrimary")}, FALSE)]
 AltF == [c \in {"u", "q"} |-> IF c = "u" THEN {In("K1", 1, "weak"), In("K2", NoId, "weak")} ELSE {}]
+(* G: a queue controller with TWO primary inputs (two kinds), started after resources of both kinds exist: the start-up listing *)
+(* has to cover every primary input                                                                                          *)
+CfgG == [c \in {"q"} |-> C("q", {In("K1", NoId, "qPrimary"), In("K2", NoId, "qPrimary")}, TRUE)]
 NoAlt2(S) == [c \in S |-> {}]
 AltNoneWD == NoAlt2({"w", "d"})
 AltNoneMQ == NoAlt2({"m", "q"})
